@@ -30,6 +30,8 @@ type Engine struct {
 	sums          map[*ssa.Function]*Summary
 	sumBusy       map[*ssa.Function]bool
 	writes        map[*ssa.Function]*WriteSet
+	postMemo      map[*ssa.Function][]PostFact
+	postBusy      map[*ssa.Function]bool
 	extWrites     map[*ssa.Function]*WriteSet
 	fieldInv      map[*types.Var]fieldInvRes
 	callees       map[ssa.CallInstruction][]*ssa.Function
